@@ -72,7 +72,8 @@ def hop_confs():
     for kinds in sets:
         for c in (1, 2, 3, 4):
             for clear in (True, False):
-                out.append({"kinds": list(kinds), "count": c, "clear": clear, "trust": "addr"})
+                # the names as an operator writes them: any letter case, a set or one whitespace-separated string
+                out.append({"kinds": list(kinds), "count": c, "clear": clear, "trust": "addr", "spell": i % 5})
                 if i % 4 == 0:
                     out.append({"kinds": list(kinds), "count": c, "clear": clear, "trust": "star"})
                 if i % 8 == 3:
@@ -109,11 +110,20 @@ _harnesses = {}
 _base = {}
 
 
+def spelled(kinds, spell):
+    kinds = list(kinds)
+    if spell == 3:
+        return [k.title() for k in kinds]
+    if spell == 4 and kinds:
+        return " ".join(k.upper() if j % 2 else k.title() for j, k in enumerate(kinds))
+    return kinds
+
+
 def make_config(conf):
     trust = conf.get("trust", "addr")
     cfg = {
         "trusted_proxy": {"addr": TRUSTED, "star": "*", "unix": "localhost"}[trust],
-        "trusted_proxy_headers": list(conf["kinds"]),
+        "trusted_proxy_headers": spelled(conf["kinds"], conf.get("spell", 0)),
         "trusted_proxy_count": conf["count"],
         "clear_untrusted_proxy_headers": bool(conf["clear"]),
     }
@@ -126,7 +136,8 @@ def harness(cfg, unix):
     from vf.sync import SyncHarness
 
     kw = dict(cfg)
-    kw["trusted_proxy_headers"] = set(kw.get("trusted_proxy_headers") or ())
+    if not isinstance(kw.get("trusted_proxy_headers"), str):
+        kw["trusted_proxy_headers"] = set(kw.get("trusted_proxy_headers") or ())
     key = (bool(unix), tuple(sorted((k, repr(sorted(v)) if isinstance(v, set) else repr(v)) for k, v in kw.items())))
     h = _harnesses.get(key)
     if h is None:
